@@ -152,6 +152,7 @@ type PEval struct {
 	AssumeNonNil func(path string) bool // symbolic objects assumed non-nil
 	LoopOK    bool // when true, a revisited block ends the path with Unknown results instead of failing
 	paths     int
+	flow      *Flow
 	Err       error
 	tables    map[*ssa.Global]*ConstTable
 	Visited   map[*ssa.Function]bool
@@ -710,6 +711,12 @@ func (ev *PEval) instr(s *pstate, fr *frame, v ssa.Value) AV {
 					if g, ok := x.X.(*ssa.Global); ok {
 						if t := ev.table(g); t != nil {
 							return AV{K: KMap, Tab: t}
+						}
+						if ev.flow == nil {
+							ev.flow = NewFlow(ev.P)
+						}
+						if ev.flow.sentinelError(g) {
+							return AV{K: KNonNil, Tag: "sentinel " + g.Name()}
 						}
 					}
 				}
